@@ -1,5 +1,6 @@
 import TongoProofs.Lemmas.Wallet
 import TongoProofs.Lemmas.CellOrdSpec
+import TongoModel.WalletSeed
 /-! Property C15 — wallet address and send parameters follow from key, version and chain state.
 
 Model: `TongoModel/Wallet.lean` (data layouts, state-init, address), `TongoModel/WalletSend.lean`
@@ -373,6 +374,128 @@ theorem confirm_ok_false_before_fix :
       (∃ p ∈ polls.takeWhile (fun p => decide (p.elapsed < wait)), p.err = false ∧ p.seqno > seqno) ∧
       confirmLoopV0 wait seqno polls = false :=
   ⟨10, 0, [{ elapsed := 0, seqno := 1, err := false }], by decide, by decide⟩
+
+/-! ### mnemonic → key -/
+
+section seed
+open Tongo.Wallet.Seed
+
+/-- `SeedToPrivateKey` accepts a text exactly when it has at least 12 space-separated fields and the first (only) byte
+of `PBKDF2(HMAC-SHA-512(key = text, msg = ""), "TON seed version", 390 iterations, 1 byte)` is 0 — the rule
+`checkSumSeed` tests — and then returns the Ed25519 key whose seed is
+`PBKDF2(same hash, "TON default seed", 100000 iterations, 32 bytes)`. There is no password variant in the code and
+the words are not looked up in the word list. (`Kdf` = the two primitives; the driver runs HMAC/PBKDF2-SHA-512.) -/
+theorem seed_version_check (K : Kdf) (seed : List UInt8) :
+    (∀ k, seedToPrivateKey K seed = .ok k ↔
+        (12 ≤ fieldCount seed ∧ checkSumSeed K seed = .ok true ∧
+          k = K.pbkdf2 (K.hmac seed []) saltDefault 100000 32 ∧ k.length = 32))
+    ∧ (checkSumSeed K seed = .ok true ↔ ∃ rest, K.pbkdf2 (K.hmac seed []) saltVersion 390 1 = 0 :: rest)
+    ∧ (fieldCount seed < 12 → ∃ e, seedToPrivateKey K seed = .err e)
+    ∧ (checkSumSeed K seed = .ok false → ∃ e, seedToPrivateKey K seed = .err e) := by
+  refine ⟨?_, ?_, ?_, ?_⟩
+  · intro k
+    unfold seedToPrivateKey seedToKeyWith checkSumSeed
+    by_cases hc : fieldCount seed < 12
+    · simp [hc]
+    · simp only [hc, ↓reduceIte]
+      cases hv : versionOk K versionIters seed with
+      | panic p => simp
+      | err e => simp
+      | ok b =>
+        cases b with
+        | false => simp
+        | true =>
+          simp only [seedHash, keyIters, true_and]
+          by_cases hl : (K.pbkdf2 (K.hmac seed []) saltDefault 100000 32).length = 32
+          · simp only [hl, ne_eq, not_true_eq_false, ↓reduceIte, Outcome.ok.injEq]
+            constructor
+            · intro h; subst h; exact ⟨by omega, rfl, hl⟩
+            · intro h; exact h.2.1.symm
+          · simp only [hl, ne_eq, not_false_eq_true, ↓reduceIte, reduceCtorEq, false_iff, not_and]
+            intro _ h; rw [h]; exact hl
+  · unfold checkSumSeed versionOk seedHash versionIters
+    cases h : K.pbkdf2 (K.hmac seed []) saltVersion 390 1 with
+    | nil => simp
+    | cons b rest => simp
+  · intro h
+    unfold seedToPrivateKey seedToKeyWith
+    simp [h]
+  · intro h
+    unfold seedToPrivateKey seedToKeyWith
+    unfold checkSumSeed at h
+    by_cases hc : fieldCount seed < 12
+    · simp [hc]
+    · simp [hc, h]
+
+theorem fieldCount_joinWords : ∀ (ws : List (List UInt8)), ws ≠ [] → (∀ w ∈ ws, 32 ∉ w) →
+    fieldCount (joinWords ws) = ws.length := by
+  intro ws
+  induction ws with
+  | nil => intro h; exact absurd rfl h
+  | cons w rest ih =>
+    intro _ hw
+    have hw0 : (w.filter (· == 32)).length = 0 := by
+      rw [List.length_eq_zero_iff, List.filter_eq_nil_iff]
+      intro x hx hx32
+      have : x = 32 := by simpa using hx32
+      exact hw w (by simp) (this ▸ hx)
+    cases rest with
+    | nil => simp [joinWords, fieldCount, hw0]
+    | cons w2 rest2 =>
+      have ih' := ih (by simp) (fun x hx => hw x (by simp [hx]))
+      unfold fieldCount at ih' ⊢
+      simp only [joinWords, List.filter_append, List.length_append, hw0, List.length_cons]
+      simp only [List.filter_cons, beq_self_eq_true, ↓reduceIte, List.filter_nil, List.length_cons, List.length_nil] at ih' ⊢
+      omega
+
+theorem wordIndices_length (bits : List Bool) (n : Nat) : (wordIndices bits n).length = n := by
+  induction n generalizing bits with
+  | zero => rfl
+  | succ n ih => simp [wordIndices, ih]
+
+/-- `RandomSeed` only returns seeds the version rule accepts: the result is the text built from one of the random
+draws, `checkSumSeed` holds for it, it has 24 fields (the words contain no space), and therefore `SeedToPrivateKey`
+accepts it (whenever PBKDF2 returns the 32 bytes asked for). -/
+theorem random_seed_accepted (K : Kdf) (words : Nat → List UInt8) (hw : ∀ i, 32 ∉ words i) (draws : List (List UInt8))
+    (s : List UInt8) (h : randomSeed K words draws = .ok (some s)) :
+    checkSumSeed K s = .ok true ∧ (∃ d ∈ draws, s = randSeed words d) ∧ fieldCount s = 24 ∧
+      ((K.pbkdf2 (K.hmac s []) saltDefault 100000 32).length = 32 →
+        seedToPrivateKey K s = .ok (K.pbkdf2 (K.hmac s []) saltDefault 100000 32)) := by
+  have hfc : ∀ d, fieldCount (randSeed words d) = 24 := by
+    intro d
+    unfold randSeed
+    rw [fieldCount_joinWords]
+    · simp [wordIndices_length]
+    · intro h
+      have := congrArg List.length h
+      simp [wordIndices_length] at this
+    · intro w hwm
+      obtain ⟨i, _, rfl⟩ := List.mem_map.mp hwm
+      exact hw i
+  have hmain : checkSumSeed K s = .ok true ∧ ∃ d ∈ draws, s = randSeed words d := by
+    induction draws with
+    | nil => simp [randomSeed] at h
+    | cons d ds ih =>
+      unfold randomSeed at h
+      cases hc : checkSumSeed K (randSeed words d) with
+      | panic p => simp [hc] at h
+      | err e => simp [hc] at h
+      | ok b =>
+        cases b with
+        | true =>
+          simp only [hc, Outcome.ok.injEq, Option.some.injEq] at h
+          subst h
+          exact ⟨hc, d, by simp, rfl⟩
+        | false =>
+          simp only [hc] at h
+          obtain ⟨h1, d', hd', h2⟩ := ih h
+          exact ⟨h1, d', by simp [hd'], h2⟩
+  obtain ⟨hck, d, hd, hs⟩ := hmain
+  refine ⟨hck, ⟨d, hd, hs⟩, by rw [hs]; exact hfc d, ?_⟩
+  intro hl
+  exact ((seed_version_check K s).1 _).mpr ⟨by rw [hs, hfc d]; decide, hck, rfl, hl⟩
+
+end seed
 
 /-! ### the hypotheses are satisfiable -/
 
